@@ -273,8 +273,8 @@ def c16_task(desc):
 
 # ------------------------------------------------------------------------------------------ C06 part A
 
-FAULT_KINDS_Q = [("exit", 1), ("exit", 255), ("nox", None), ("undef_flag", None), ("undef_noflag", None)]
-FAULT_KINDS_T = [("exit", 1), ("exit", 2), ("exit", 127), ("exit", 255), ("nox", None), ("undef_flag", None), ("undef_noflag", None)]
+FAULT_KINDS_Q = [("exit", 1), ("exit", 255), ("signal", 9), ("nox", None), ("undef_flag", None), ("undef_noflag", None)]
+FAULT_KINDS_T = [("exit", 1), ("exit", 2), ("exit", 127), ("exit", 255), ("signal", 9), ("signal", 11), ("signal", 15), ("nox", None), ("undef_flag", None), ("undef_noflag", None)]
 
 
 def c06_scenarios(tier):
@@ -310,6 +310,8 @@ def c06_build(desc):
     for c, t, kind, code in desc["faults"]:
         if kind == "exit":
             faults[(c, t)] = code
+        elif kind == "signal":
+            faults[(c, t)] = -code   # the process dies by this signal: it never exits with a code
         elif kind == "nox":
             modes[(t, c)] = "nox"
         else:
@@ -333,9 +335,12 @@ def c06_monitor(sn):
             return out
         # what actually happened, from the driver's own log
         trig = False
+        signalled = False
         for pr, code in ex.codes.items():
-            if code != 0:
+            if code > 0:
                 trig = True
+            elif code < 0:
+                signalled = True   # killed by a signal: the statement speaks about exit codes only
         entries = {}
         order = []
         for res in doc.get("results", []):
@@ -349,7 +354,9 @@ def c06_monitor(sn):
             if st in ("not_executable",) or (st == "undefined" and sn.fail_on_undefined):
                 trig = True
             if st == "success":
-                if not arrived or ex.codes.get((c, t)) != 0:
+                if arrived and ex.codes.get((c, t), 0) < 0:
+                    out.append(("false-success", "%s:%s reported success (code %s) but the process was killed by signal %d and never ran to completion" % (c, t, v.get("code"), -ex.codes[(c, t)])))
+                elif not arrived or ex.codes.get((c, t)) != 0:
                     out.append(("false-success", "%s:%s reported success but %s" % (c, t, "no process was started" if not arrived else "it was released with code %s" % ex.codes.get((c, t)))))
             elif st == "error" and "code" in v and v["code"] is not None:
                 if ex.codes.get((c, t)) != v["code"]:
@@ -364,22 +371,29 @@ def c06_monitor(sn):
             if m is None and st not in ("undefined", "skipped"):
                 out.append(("undefined-misreported", "%s:%s is undefined but reported %s" % (c, t, st)))
         for (c, t), code in ex.codes.items():
-            if code != 0:
+            if code > 0:
                 e = entries.get((c, t))
                 if e is None or e[1].get("status") != "error" or e[1].get("code") != code:
                     out.append(("failure-not-reported", "%s:%s exited %s but entry is %s" % (c, t, code, e and e[1])))
-        if bool(doc.get("failed")) != trig:
-            out.append(("failed-flag-wrong", "failed=%s but trigger occurred=%s" % (doc.get("failed"), trig)))
-        want_code = 1 if trig else 0
-        if ex.code != want_code:
-            out.append(("exit-status-wrong", "process exit status %s, expected %s (stderr %s)" % (ex.code, want_code, ex.stderr[:200])))
+        if signalled and not trig:
+            # a signal death is not an "exit with a non-zero code": either outcome is accepted, but flag
+            # and exit status must agree with each other
+            if ex.code != (1 if doc.get("failed") else 0):
+                out.append(("exit-status-wrong", "failed=%s but process exit status %s" % (doc.get("failed"), ex.code)))
+            trig = bool(doc.get("failed"))
+        else:
+            if bool(doc.get("failed")) != trig:
+                out.append(("failed-flag-wrong", "failed=%s but trigger occurred=%s" % (doc.get("failed"), trig)))
+            want_code = 1 if trig else 0
+            if ex.code != want_code:
+                out.append(("exit-status-wrong", "process exit status %s, expected %s (stderr %s)" % (ex.code, want_code, ex.stderr[:200])))
         if trig:
             # the first trigger: earliest failing release / scheduling fault in plan order
             first = None
             for (c, gi, t) in order:
                 gi_, v = entries[(c, t)]
                 st = v["status"]
-                if (st == "error" and ex.codes.get((c, t), 0) != 0) or st == "not_executable" or (st == "undefined" and sn.fail_on_undefined):
+                if (st == "error" and ex.codes.get((c, t), 0) > 0) or st == "not_executable" or (st == "undefined" and sn.fail_on_undefined):
                     key = (cidx.get(c, 99), gi)
                     if first is None or key < first:
                         first = key
@@ -551,16 +565,22 @@ def c05_scenarios(tier):
                 tsubs = [list(x) for k in range(1, n + 1) for x in itertools.combinations(paths, k)]
                 if tier == "quick":
                     tsubs = tsubs[:: max(1, len(tsubs) // 3)]
-                for sub in tsubs:
+                for si, sub in enumerate(tsubs):
                     sel.append(("explicit", None, None, sub, False))
                     sel.append(("explicit+deps", None, None, sub, True))
+                    # explicit targets ignore the checkpoint: the same selections with a checkpoint
+                    # present and nothing / something changed since
+                    if pi == 0 and cmds == ["build"]:
+                        for changed in ([], paths[:1], paths[-1:]) if (tier != "quick" or si == 0) else ([],):
+                            sel.append(("explicit+cp", "head", changed, sub, False))
+                            sel.append(("explicit+deps+cp", "head", changed, sub, True))
                 for mname, cp, changed, explicit, deps in sel:
                     a = list(args)
                     if explicit:
                         a += ["-t"] + explicit + (["--deps"] if deps else [])
                     out.append(("c05", {"shape": sh, "modes": [[t, c, m] for (t, c), m in sorted(modes.items())], "args": a, "commands": cmds,
                                         "sequences": seqs, "checkpoint": cp, "changed": changed, "explicit": explicit, "deps": deps}, {}))
-                    if pi == 0 and n > 1 and mname in ("all", "explicit+deps") and cmds == ["build"]:
+                    if pi == 0 and n > 1 and mname in ("all", "explicit+deps") and cmds == ["build"] and cp is None:
                         # explicit command definitions on a subset of targets, reversed declaration order
                         for defs in ([paths[0]], [paths[-1]], paths[::2]):
                             out.append(("c05", {"shape": sh, "modes": [[t, c, m] for (t, c), m in sorted(modes.items())], "args": a, "commands": cmds,
@@ -778,8 +798,8 @@ def run_tasks(tasks, workers=None):
 RULES = {
     "C04": "(thorough adds every labelled DAG on 2-4 nodes, single command, every release order) scenarios: 12 dependency shapes x selection modes (all targets / changed subset after a checkpoint / -t with --deps) x command lists (build; build test; sequence(build,test) then lint); every child blocks until released; stateless DFS over every release order (single-command scenarios: all orders; multi-command: all schedules with <= max_dev non-default choices) plus the eager deviation for every single child; monitor: at each arrival every dependency in the run and every executable of every earlier command has exited; evaluations = executions (complete runs); non-trivial = scenarios with more than one schedule",
     "C16": "(plus group sizes 2..13 with a `log tail` listener attached, three filter variants) (plus chains of wide groups, e.g. 30/30/10 and 40/40 under 1-2 commands, so that many tasks precede the group under test) group sizes x position of the group in the plan (only, first, middle, last) x 1-2 commands; no member is released before every member of the group has arrived (each member waits for all the others to start); oracle: every member arrives, then the run exits 0 with all success entries; non-trivial = scenarios where the full group rendezvoused for every command",
-    "C06": "part B (internal orderings): plans with a group of n in {1,2,3} (thorough 4) followed by a dependent target, all commands succeed, points group.pre_shutdown:<i> and compressor.gone:<x> active; the free run, every single constraint `compressor.gone:x before group.pre_shutdown:i` per group and pairs of constraints (hit b is held until hit a was seen); oracle exit 0, failed=false, all success, stored logs complete. part A: plans = dependency shapes with two commands; fault assignments: every single fault (exit codes, missing x bit, undefined with/without --fail-on-undefined) at every (command,target) position, pairs of faults within a command, and no fault; for each every release order of the groups (<=3 members); oracle: failed flag, exit status, skipped/not-started later groups and commands, status truthfulness; evaluations = executions",
-    "C05": "(plus variants in which some targets define the command through commands.definitions with explicit paths and the declaration order is reversed) dependency shapes x command-definition patterns x command lists x selection modes (no targets without checkpoint; checkpoint + every changed subset; -t S; -t S --deps) in trace mode; oracle: result document pairs == commands x selected targets exactly once, groups equal analyze --target-groups taken immediately before (or singletons / a valid layering of the closure), executable starts at most once, exactly once iff defined and nothing failed earlier, never when undefined; evaluations = runs",
+    "C06": "part B (internal orderings): plans with a group of n in {1,2,3} (thorough 4) followed by a dependent target, all commands succeed, points group.pre_shutdown:<i> and compressor.gone:<x> active; the free run, every single constraint `compressor.gone:x before group.pre_shutdown:i` per group and pairs of constraints (hit b is held until hit a was seen); oracle exit 0, failed=false, all success, stored logs complete. part A: plans = dependency shapes with two commands; fault assignments: every single fault (exit codes, death by signal, missing x bit, undefined with/without --fail-on-undefined) at every (command,target) position, pairs of faults within a command, and no fault; for each every release order of the groups (<=3 members); oracle: failed flag, exit status, skipped/not-started later groups and commands, status truthfulness; evaluations = executions",
+    "C05": "(plus variants in which some targets define the command through commands.definitions with explicit paths and the declaration order is reversed) dependency shapes x command-definition patterns x command lists x selection modes (no targets without checkpoint; checkpoint + every changed subset; -t S; -t S --deps; the -t forms also with a checkpoint present) in trace mode; oracle: result document pairs == commands x selected targets exactly once, groups equal analyze --target-groups taken immediately before (or singletons / a valid layering of the closure), executable starts at most once, exactly once iff defined and nothing failed earlier, never when undefined; evaluations = runs",
 }
 
 
